@@ -98,7 +98,7 @@ def run(prog, rep, tier):
             else:
                 r1.fail(fv.name, "completed-without-EndDeferral:" + key, "edge %s reaches Completed without EndDeferral: deferred families would never be released" % desc, fv.loc(a.block))
         # (iii) arms that shrink pending must end in an emptiness test
-        shrinks = any(c.endswith("RestartingDeferral::remove_peer") or re.search(r"Hash(Map|Set)::<.*>::remove$", c) for c in a.calls)
+        shrinks = any(c.endswith("RestartingDeferral::remove_peer") or re.search(r"Hash(Map|Set)::<.*>::remove$", c) for c in a.may_calls | a.calls)
         if shrinks and src <= DEFERRING:
             tested = bool(via) or any(g[0] == "call" and g[1].endswith("::is_empty") and "pending" in expr_vars(g) for g, l in a.raw_conds)
             if tested:
